@@ -135,17 +135,30 @@ Definition enc_seen (f : wentry -> list item) (g : wentry -> group) (e : wentry)
 
 (* case: (0 entry)  -> (items group)
          (1 stream entry) -> (result ((id items group) ...)) deliveries in order; result = () or (failing terminal) *)
+Definition dec_fail (x : sx) : N * nat * N := (sx_n (sx_nth x 0), sx_nat (sx_nth x 1), sx_n (sx_nth x 2)).
+Definition enc_result (r : option (N * N)) : sx := of_option (fun p : N * N => L [of_n (fst p); of_n (snd p)]) r.
+Definition enc_deliveries (f : wentry -> list item) (g : wentry -> group) (d : list (N * wentry)) : sx :=
+  L (map (fun p : N * wentry => L [of_n (fst p); enc_seen f g (snd p)]) d).
+
+(* case: (0 entry)  -> (items group)
+         (1 stream entry) -> (result ((id items group) ...)) deliveries in order; result = () or (failing terminal)
+         (2 stream (entries) ((terminal position kind) ...)) -> ((result deliveries) ...) one per entry, through ONE adapter instance *)
 Definition run_with (f : wentry -> list item) (g : wentry -> group)
-                    (dl : wstream -> wentry -> list (N * wentry)) (x : sx) : sx :=
+                    (dl : wstream -> wentry -> list (N * wentry))
+                    (fd : failspec -> nat -> wstream -> list wentry -> list (option (N * N) * list (N * wentry)))
+                    (x : sx) : sx :=
   match sx_tag x with
   | 0%Z => enc_seen f g (dec_entry FUEL (sx_arg x 0))
+  | 1%Z => let s := dec_stream FUEL (sx_arg x 0) in
+           L [of_option of_n (sresult s); enc_deliveries f g (dl s (dec_entry FUEL (sx_arg x 1)))]
   | _ => let s := dec_stream FUEL (sx_arg x 0) in
-         L [of_option of_n (sresult s);
-            L (map (fun p : N * wentry => L [of_n (fst p); enc_seen f g (snd p)])
-                   (dl s (dec_entry FUEL (sx_arg x 1))))]
+         let es := map (dec_entry FUEL) (sx_list (sx_arg x 1)) in
+         let fs := map dec_fail (sx_list (sx_arg x 2)) in
+         L (map (fun p : option (N * N) * list (N * wentry) => L [enc_result (fst p); enc_deliveries f g (snd p)])
+                (fd fs O s es))
   end.
 
 (* mechanism *)
-Definition c15_run (x : sx) : sx := run_with calls sgroup deliver x.
+Definition c15_run (x : sx) : sx := run_with calls sgroup deliver sfeed x.
 (* property: item-level specification *)
-Definition c15_spec (x : sx) : sx := run_with spec_calls spec_group spec_deliver x.
+Definition c15_spec (x : sx) : sx := run_with spec_calls spec_group spec_deliver (spec_feed spec_deliver) x.
